@@ -66,6 +66,7 @@ TFheGateBootstrappingParameterSet *make_params(const ParamSpec &sp);
 // cached per worker; generated deterministically from (spec, kseed)
 KeyCtx *get_key(const ParamSpec &sp, uint64_t kseed);
 void drop_keys();
+void begin_run();   // start of a run: keys handed out from now on are pinned in the cache until the next run
 
 // ------------------------------------------------------------ observer arithmetic (independent of the library)
 namespace obs {
